@@ -39,7 +39,7 @@ PROPS = {
             "LocalVariables (HashMap) is abstract; Instruction::recreate of children is an uninterpreted function",
         ]),
     "C07": dict(
-        probes=["order"],
+        probes=["order", "control_random"],
         explanation="evaluation order of the composite instructions stated over the abstract state sequence: binary "
                     "operators (lhs, then rhs exactly once, errors stop), && / || short circuit, if / if-set / match "
                     "(only the chosen branch; arms and value candidates top to bottom), unary operators, set. Element "
@@ -61,7 +61,7 @@ PROPS = {
             "Slicing::exec / exec_index (closures, collect) are outside both verifiers: bounded probes only",
         ]),
     "C12": dict(
-        probes=["control"],
+        probes=["control", "control_random"],
         explanation="selection and signal routing of if / if-set / match / loop / function / block proved on the verbatim "
                     "bodies against the abstract machine; desugaring of while / while-set / for and the placement checks "
                     "are the checker's business and are covered by bounded probes only",
